@@ -584,7 +584,7 @@ def run_chunk(spec):
         enum_case(res, spec, only["idx"])
         return res.to_json()
     base = spec["chunk"] * 100000
-    wd = Watchdog(res, 180.0)
+    wd = Watchdog(res, 400.0)
     for j in range(spec["n"]):
         wd.arm("idx=%d" % (base + j))
         enum_case(res, spec, base + j)
